@@ -24,6 +24,8 @@ def r21a(ctx, P):
     for p, f in sorted(P.fns.items()):
         if not p.startswith(HL) or is_test_or_bench(f):
             continue
+        if f.kind != "closure":
+            f = P.inlined(p, depth=1) or f        # a `fragment window` helper computing the bounds is read in place
         ctx.saw(f)
         sl = Slice(f, through_all_calls=True)
         for b, t in f.calls():
@@ -84,17 +86,47 @@ def r21a(ctx, P):
 
 
 def _named_root(f, operand):
+    """the user variable an operand stands for.  A variable that merely receives what a spliced helper returned
+    (`let (start, end) = window(..)`) stands for the helper's own variable: single copies and tuple elements are followed through it."""
     l = op_local(operand)
     seen = set()
+    last_named = None
     while l is not None and l not in seen:
         seen.add(l)
-        if f.locals[l].get("name"):
-            return l
         dfs = [d for d in f.defs().get(l, []) if not d["partial"]]
-        if len(dfs) != 1 or dfs[0]["k"] != "assign" or dfs[0]["rv"]["k"] not in ("use", "cast"):
-            return None
-        l = op_local(dfs[0]["rv"]["a"])
-    return None
+        if f.locals[l].get("name"):
+            last_named = l
+            if not getattr(f, "inlined", None):
+                return l
+        if len(dfs) != 1 or dfs[0]["k"] != "assign":
+            return last_named
+        rv = dfs[0]["rv"]
+        if rv["k"] not in ("use", "cast"):
+            return last_named
+        pl = op_place(rv["a"])
+        if pl is None:
+            return last_named
+        if pl["p"]:
+            # element of a tuple that was built once from locals: `(a, b).0`
+            first = next((e for e in pl["p"] if isinstance(e, dict) and "f" in e), None)
+            src = pl["l"]
+            hop = 0
+            while hop < 4:
+                sd = [d for d in f.defs().get(src, []) if not d["partial"]]
+                if len(sd) == 1 and sd[0]["k"] == "assign" and sd[0]["rv"]["k"] in ("use", "cast") and op_place(sd[0]["rv"]["a"]) and \
+                        not op_place(sd[0]["rv"]["a"])["p"]:
+                    src = op_local(sd[0]["rv"]["a"])
+                    hop += 1
+                else:
+                    break
+            sd = [d for d in f.defs().get(src, []) if not d["partial"]]
+            if first is not None and len(sd) == 1 and sd[0]["k"] == "assign" and sd[0]["rv"]["k"] == "agg" and sd[0]["rv"].get("ak") == "tuple" and \
+                    len(pl["p"]) == 1 and str(first.get("f", "")).isdigit() and int(first["f"]) < len(sd[0]["rv"]["ops"]):
+                l = op_local(sd[0]["rv"]["ops"][int(first["f"])])
+                continue
+            return last_named
+        l = pl["l"]
+    return last_named
 
 
 def r21b(ctx, P):
@@ -102,7 +134,7 @@ def r21b(ctx, P):
     ctx.rule(rid, "GUARD: in highlight_fragments the output push is dominated by the Some arm of the regex find, happens at most once "
                   "per iteration (no push reachable from a push without passing the loop's next()), and the loop iterates a Range "
                   "whose end is the number_of_fragments option; make_snippet delegates to highlight_fragments")
-    f = P.fn(HL + "highlight_fragments")
+    f = P.inlined(HL + "highlight_fragments", depth=1)
     if not ctx.anchor(rid, f, "highlight_fragments"):
         return
     sl = Slice(f, through_all_calls=True)
@@ -161,7 +193,7 @@ def r21c(ctx, P):
                   "`lower + fragment_size` capped by text.len() and moved back inside the `!is_char_boundary` loop only. Any other "
                   "definition (a max with another position, a value derived from the previous fragment or from the other bound) can "
                   "put the window past the match: the fragment then has no tagged match, or is empty")
-    f = P.fn(HL + "highlight_fragments")
+    f = P.inlined(HL + "highlight_fragments", depth=1)
     if not ctx.anchor(rid, f, "highlight_fragments"):
         return
     sl = Slice(f, through_all_calls=True)
